@@ -352,7 +352,7 @@ class Layout(object):
     """how a program is written down as a docstring"""
 
     def __init__(self, rng, base_indent=0, tabs=False, wrapper='freeform', want_prob=0.5, prose_prob=0.15,
-                 blank_prob=0.15, styles=('all_ps1', 'ps2', 'ps2')):
+                 blank_prob=0.15, styles=('all_ps1', 'ps2', 'ps2'), reindent_prob=0.0):
         self.rng = rng
         self.base_indent = base_indent
         self.tabs = tabs
@@ -361,6 +361,9 @@ class Layout(object):
         self.prose_prob = prose_prob
         self.blank_prob = blank_prob
         self.styles = styles
+        # probability that the example following a want / a blank line / prose is written at another
+        # indentation than the one before it (every example carries its own indentation)
+        self.reindent_prob = reindent_prob
 
     @staticmethod
     def random(rng):
@@ -369,7 +372,8 @@ class Layout(object):
                       wrapper=rng.choice(['freeform', 'freeform', 'google']),
                       want_prob=rng.choice([0.2, 0.5, 0.8]),
                       prose_prob=rng.choice([0.0, 0.15, 0.3]),
-                      blank_prob=rng.choice([0.0, 0.15, 0.3]))
+                      blank_prob=rng.choice([0.0, 0.15, 0.3]),
+                      reindent_prob=rng.choice([0.0, 0.0, 0.3, 0.7]))
 
     def describe(self):
         return {'base_indent': self.base_indent, 'tabs': self.tabs, 'wrapper': self.wrapper}
@@ -410,10 +414,12 @@ class Layout(object):
         pending = ''
         self.used_unprefixed = False
         features = set()
+        shift = rng.choice([0, 0, 2, 4]) if self.reindent_prob else 0
         for si, st in enumerate(stmts):
             sl = self.stmt_lines(st)
+            pad = ' ' * shift
             for text in sl:
-                lines.append(text)
+                lines.append(pad + text if text else text)
                 labels.append(('src', si))
             # a '>>> ' continuation line followed, inside the same statement, by a line without it
             seen_ps1_cont = False
@@ -437,7 +443,7 @@ class Layout(object):
                 wl = wants[si]
             if wl is not None:
                 for w in wl:
-                    lines.append(w)
+                    lines.append(pad + w)
                     labels.append(('want', si))
                 placed[si] = wl
                 pending = ''
@@ -452,6 +458,15 @@ class Layout(object):
             elif sep < self.prose_prob + self.blank_prob:
                 lines.append('')
                 labels.append(('text', si))
+            separated = si < len(stmts) - 1 and sep < self.prose_prob + self.blank_prob
+            if self.reindent_prob and (wl is not None or separated) and rng.random() < self.reindent_prob:
+                # the next example is written at another indentation: directly under the want
+                # (no blank line between) or after the separator
+                new = rng.choice([x for x in (0, 2, 4, 6) if x != shift])
+                if si < len(stmts) - 1:
+                    features.add('reindent-after-want:%s' % ('less' if new < shift else 'more')
+                                 if not separated else 'reindent-after-separator')
+                shift = new
         ind = ' ' * self.base_indent
         body = [ind + ln if ln else ln for ln in lines]
         head = []
